@@ -110,7 +110,7 @@ class Job:
         txt = open(self.harness_path()).read()
         ids = set(re.findall(r'vp_known\(\s*"([^"]+)"', txt))
         # also in included harness headers
-        for inc in re.findall(r'#include\s+"((?:env|ref)_[^"]+)"', txt):
+        for inc in re.findall(r'#include\s+"((?:env|ref|rel)_[^"]+)"', txt):
             p = os.path.join(VERIF, 'harness', inc)
             if os.path.exists(p):
                 ids |= set(re.findall(r'vp_known\(\s*"([^"]+)"', open(p).read()))
